@@ -396,7 +396,7 @@ fn qlaws_ev<T: StratNum>(case: &Value, out: &mut Vec<Value>) {
         let mut data: Vec<f64> = lane.iter().map(|x| x.to_f64().unwrap()).collect();
         let mut pos = jints(&case["nanpos"]);
         pos.sort();
-        for (k, p) in pos.iter().enumerate() { data.insert((*p as usize + k).min(data.len()), f64::NAN); }
+        for (k, p) in pos.iter().enumerate() { data.insert((*p as usize + k).min(data.len()), nan64()); }
         let mut st = Strided::new(&data, stride, 1, |_| 0.25f64);
         let mut res = serde_json::Map::new();
         let mut failed: Vec<&str> = Vec::new();
